@@ -862,12 +862,13 @@ def check_history(ctx, stream, mode, hist, model_line):
 
 
 # ----------------------------------------------------------------------------- client side
-def client_rows():
+def client_rows(only=None):
     from txdbus import client, error
     from twisted.internet import defer
     rows = []
-    for a, r, d, e in itertools.product((False, True), repeat=4):
-        for code in range(8):
+    combos = [tuple(only[:4])] if only else list(itertools.product((False, True), repeat=4))
+    for a, r, d, e in combos:
+        for code in ([only[4]] if only else range(8)):
             conn = client.DBusClientConnection.__new__(client.DBusClientConnection)
             seen = {}
 
@@ -893,6 +894,44 @@ def client_rows():
             cls = 1 if text.endswith('Queued for name acquisition') else 2 if text.endswith('Name in use') else 0
             rows.append(((a, r, d, e, code), '%d %s %d' % (flags, res[0] if res else 'pending', cls), ok_call))
     return rows
+
+
+def judge_client(ctx, inp, impl, ok_call):
+    """Implementation-only oracle of the client side: the flag word sent, and what the caller is told.
+    RequestName replies 1 (owner) and 4 (already owner) mean the caller owns the name afterwards, 2 (queued) and
+    3 (refused) that it does not: with errbackUnlessAcquired the Deferred must succeed exactly for 1 and 4 and
+    otherwise fail with FailedToAcquireName carrying the reply code; without it, it always succeeds with the code.
+    Codes outside 1..4 are not defined by the statement and not judged."""
+    a, r, d, e, code = inp
+    flags, res, _cls = impl.split()
+    cinp = {'client': [bool(a), bool(r), bool(d), bool(e), code]}
+    if not ok_call or int(flags) != (1 if a else 0) | (2 if r else 0) | (4 if d else 0):
+        ctx.violation('client-flag-bits', 'requestBusName does not send the DBus flag bits it was asked for',
+                      inp=cinp, observed=impl, expected='ALLOW=1 REPLACE=2 DO_NOT_QUEUE=4')
+    if code not in (1, 2, 3, 4):
+        return
+    owns = code in (1, 4)
+    want = 'ok:%d' % code if (owns or not e) else 'raise:%d' % code
+    if res == want:
+        return
+    if not e:
+        key, what = ('client-errback-although-disabled',
+                     'requestBusName(errbackUnlessAcquired=False) does not deliver the reply code')
+    elif owns and code == 4:
+        key, what = ('client-already-owner-reported-as-failure',
+                     'reply ALREADY_OWNER (4): the caller owns the name, yet requestBusName fails with '
+                     'FailedToAcquireName')
+    elif owns:
+        key, what = ('client-owner-reported-as-failure',
+                     'reply PRIMARY_OWNER (1): the caller owns the name, yet requestBusName fails')
+    elif res.startswith('ok:'):
+        key, what = ('client-not-owner-reported-as-success',
+                     'reply %d: the caller does not own the name, yet requestBusName(errbackUnlessAcquired=True) '
+                     'succeeds' % code)
+    else:
+        key, what = ('client-failure-without-code',
+                     'requestBusName fails, but not with FailedToAcquireName carrying the reply code')
+    ctx.violation(key, what, inp=cinp, observed=res, expected=want)
 
 
 # ----------------------------------------------------------------------------- entry points
@@ -978,14 +1017,19 @@ def run(ctx):
         ctx.case('client-flags', sample=list(inp))
         if cout is not None and cout[i] != impl:
             ctx.disagree('client-flags', list(inp), cout[i], impl)
-        a, r, d, e, code = inp
-        if not ok_call or int(impl.split()[0]) != (1 if a else 0) | (2 if r else 0) | (4 if d else 0):
-            ctx.violation('client-flag-bits', 'requestBusName does not send the DBus flag bits it was asked for',
-                          inp=list(inp), observed=impl, expected='ALLOW=1 REPLACE=2 DO_NOT_QUEUE=4')
+        judge_client(ctx, inp, impl, ok_call)
 
 
 def replay(ctx, data):
     inp = data['input']
+    if 'client' in inp:
+        a, r, d, e, code = inp['client']
+        for row, impl, ok_call in client_rows(only=(bool(a), bool(r), bool(d), bool(e), int(code))):
+            out = ctx.model(['f %d %d %d %d %d' % row])
+            judge_client(ctx, row, impl, ok_call)
+            if out is not None and out[0] != impl:
+                ctx.disagree('client-flags', list(row), out[0], impl)
+        return
     if 'history' not in inp:
         return run(ctx)
     hist = [t for t in inp['history'] if not t.startswith('(')]
